@@ -23,7 +23,7 @@ import (
 func TestC45(t *testing.T) {
 	m := mon.New(t, "C45")
 	defer m.Done()
-	m.Rule("case = (corpus item, packet-aware mutation operator(s), entry point, keyring ∈ {empty, public, public+secret, hostile = ReadKeyRing(mutated bytes)}, prompt ∈ {nil, right, wrong, none, error}, read-buffer size); corpus built at run time from gpg-made constants, hex/armored constants extracted from /repo/openpgp/**/*_test.go and deterministic fresh messages for every packet type; streams: 'baseline' (every corpus item unmutated through its natural entry points), 'directed' (hand-built boundary inputs: header forms, partial-length chains, MDC trailer/length boundaries × buffer sizes, forged session keys, nesting depths, armor/clearsign edge lines) and 'mutation' (PRNG-chosen operator per case). Oracle: panic monitor (recover per case; key panic:<entry point>:<top x/crypto frame>) + termination monitor (input reader and output sink count bytes; hung only if 4 goroutine dumps 10 s apart show the case goroutine running inside x/crypto frames with both counters frozen, or a reader returns (0,nil) 2^20 times in a row with no input consumed). distinct key = entry|kind|operator|outcome class; non-trivial = the entry point was executed on the input")
+	m.Rule("case = (corpus item, packet-aware mutation operator(s), entry point, keyring ∈ {empty, public, public+secret, hostile = ReadKeyRing(mutated bytes)}, prompt ∈ {nil, right, wrong, none, error}, read-buffer size); corpus built at run time from gpg-made constants, hex/armored constants extracted from /repo/openpgp/**/*_test.go and deterministic fresh messages for every packet type; streams: 'baseline' (every corpus item unmutated through its natural entry points), 'directed' (hand-built boundary inputs: header forms, partial-length chains, MDC trailer/length boundaries × buffer sizes, forged session keys, nesting depths, armor/clearsign edge lines), 'truncation' (seed-independent: for every length encoding — packet new-format 1/2/5-octet and partial lengths, old-format 1/2/4-octet, signature subpacket 1/2/5-octet lengths in the hashed and the unhashed area, the signature's own area lengths, MPI bit-length prefixes, S2K specifiers, user-attribute subpacket lengths, ECC OID / ECDH KDF / literal file-name lengths — the enclosing area ends after exactly 0..k-1 bytes of the k-byte field or right after it with no body; signatures are presented detached, armored, on keys, in one-pass and signature-first messages, inside compression and as embedded signatures; packet headers also inside compressed and encrypted containers) and 'mutation' (PRNG-chosen operator per case). Oracle: panic monitor (recover per case; key panic:<entry point>:<top x/crypto frame>) + termination monitor (input reader and output sink count bytes; hung only if 4 goroutine dumps 10 s apart show the case goroutine running inside x/crypto frames with both counters frozen, or a reader returns (0,nil) 2^20 times in a row with no input consumed). distinct key = entry|kind|operator|outcome class; non-trivial = the entry point was executed on the input")
 	m.Assume("Go runtime panic/stack reporting; goroutine dumps name the case goroutine (pgp2.c45CaseBody); output above 64 MiB is a legitimate compression bomb (class 'capped', not judged); the documented endless re-prompting of ReadMessage is bounded by the harness prompt (error after 2 calls, counted)")
 	cp := buildCorpus()
 	for _, n := range cp.notes {
@@ -76,6 +76,16 @@ func TestC45(t *testing.T) {
 		}
 	})
 
+	// ---- directed length-field truncation at every layer (seed-independent) ----
+	trunc := truncationCases(cp) // the list is a constant; Cases only spreads it over the batches
+	m.Cases("truncation", len(trunc), func(i int64, r *rand.Rand) {
+		c := trunc[i]
+		if _, ok := st.run(&c.in, "truncation", c.label); ok {
+			m.Count("truncation_cases", 1)
+			m.Count("trunc:"+truncKindOf(c.label), 1)
+		}
+	})
+
 	// ---- structured mutation ----
 	total := m.N(80000, 2400000)
 	m.Cases("mutation", total, func(i int64, r *rand.Rand) {
@@ -111,6 +121,9 @@ func TestC45(t *testing.T) {
 	m.Gate("corpus_repo_keyring", 5, "constants extracted from the repository's tests")
 	m.Gate("corpus_repo_msg", 5, "constants extracted from the repository's tests")
 	m.Gate("directed_cases", 500, "hand-built boundary inputs executed")
+	for _, k := range truncKinds {
+		m.Gate("trunc:"+k, truncGateMin[k], "directed length-field truncations of this encoding (area ends after 0..k-1 bytes of the field, or right after it with no body) in every context")
+	}
 	for _, e := range allEntries {
 		m.Gate("entry:"+e, m.N(1500, 50000), "mutated inputs through this entry point")
 	}
